@@ -188,7 +188,8 @@ pub fn cmp_fixed(o: &mut Outcome, el: &NetflowPacket, r: &RefFixed) -> Result<()
 pub fn oracle(case: &Case) -> Outcome {
     let (_, calls) = run_history(case);
     let mut o = Outcome::pass();
-    for (ci, (_, buf, res)) in calls.iter().enumerate() {
+    for (ci, (pi, buf, res)) in calls.iter().enumerate() {
+        let allowed = case.allowed_of(*pi);
         let mut off = 0usize;
         let mut i = 0usize;
         loop {
@@ -202,8 +203,8 @@ pub fn oracle(case: &Case) -> Outcome {
                 break; // C02's business
             }
             let v = be16(buf, off);
-            if v != 5 && v != 7 {
-                break; // not a V5/V7 packet: outside C03
+            if (v != 5 && v != 7) || !allowed.contains(&v) {
+                break; // not a V5/V7 packet, or filtered by the allowed set: outside C03
             }
             match dec_fixed(&buf[off..]) {
                 Some(r) => {
